@@ -3426,6 +3426,11 @@ operatorSwitch:
 		}
 
 	case wasm.OpcodeTailCallReturnCall:
+		// A cycle of tail calls reuses the frame and never passes a loop header, so the exit code
+		// must also be checked here, otherwise such a cycle cannot be interrupted.
+		if c.ensureTermination {
+			c.emit(newOperationBuiltinFunctionCheckExitCode())
+		}
 		fdef := c.module.FunctionDefinition(index)
 		functionFrame := c.controlFrames.functionFrame()
 		// Currently we do not support imported functions, we treat them as regular calls.
@@ -3454,6 +3459,10 @@ operatorSwitch:
 		}
 		c.pc += n
 
+		// See the comment on OpcodeTailCallReturnCall.
+		if c.ensureTermination {
+			c.emit(newOperationBuiltinFunctionCheckExitCode())
+		}
 		functionFrame := c.controlFrames.functionFrame()
 		dropRange := c.getFrameDropRange(functionFrame, false)
 		c.emit(newOperationTailCallReturnCallIndirect(typeIndex, tableIndex, dropRange, functionFrame.asLabel()))
